@@ -99,9 +99,18 @@ type Run struct {
 	kfHits       map[string]int
 	inconclusive map[string]int
 	exhaustive   *bool
+	finished     bool
+	finishCode   int
+	stalled      bool
 }
 
 func NewRun(prop, tier string, seed int64, level string) *Run {
+	r := newRun(prop, tier, seed, level)
+	r.StartStallWatch()
+	return r
+}
+
+func newRun(prop, tier string, seed int64, level string) *Run {
 	return &Run{
 		Prop: prop, Tier: tier, Seed: seed, Level: level,
 		MinDistinct:  2,
@@ -219,7 +228,7 @@ func (r *Run) Saturated() bool {
 	for _, c := range r.vioCount {
 		n += c
 	}
-	return n >= 40
+	return n >= 40 || r.stalled
 }
 
 func (r *Run) ViolationCount() int {
@@ -237,6 +246,10 @@ func sigFile(prop, sig string) string {
 func (r *Run) Finish() int {
 	r.mu.Lock()
 	defer r.mu.Unlock()
+	if r.finished {
+		return r.finishCode
+	}
+	r.finished = true
 
 	dir := VerifDir()
 	os.MkdirAll(filepath.Join(dir, "evidence"), 0o755)
@@ -349,6 +362,7 @@ func (r *Run) Finish() int {
 	b, _ := json.MarshalIndent(ev, "", " ")
 	if err := os.WriteFile(evPath, append(b, '\n'), 0o644); err != nil {
 		fmt.Fprintf(os.Stderr, "cannot write evidence: %v\n", err)
+		r.finishCode = 2
 		return 2
 	}
 
@@ -383,8 +397,10 @@ func (r *Run) Finish() int {
 	if code == 0 && (r.evals < 1 || len(r.distinct) < r.MinDistinct) {
 		fmt.Printf("INCONCLUSIVE property=%s: monitors observed too little (evaluations=%d distinct=%d, need >=%d)\n",
 			r.Prop, r.evals, len(r.distinct), r.MinDistinct)
+		r.finishCode = 3
 		return 3
 	}
+	r.finishCode = code
 	return code
 }
 
